@@ -370,6 +370,8 @@ def r4_player_two(ctx, chk, rule="C03.4"):
 
 
 def _pointed_to_set(sx, coll, slist):
+    """True if coll = {0} + every target of every transition of every state (list or set; nested append loops or a per-state
+    extend/update with a comprehension); a text if recognisably incomplete; None if not recognised."""
     if coll[0] != "res":
         return None
     Lo = sx.loops[coll[1]]
@@ -377,22 +379,33 @@ def _pointed_to_set(sx, coll, slist):
     if Lo.source != slist or not Lo.whole or Lo.has_break or Lo.cont != FALSE:
         return "outer collecting loop does not cover the whole state list"
     up = Lo.update[v]
-    if up[0] != "res":
-        return None
-    Li = sx.loops[up[1]]
-    if Li.source != ("attr", ("elem", Lo.id), "next_states") or not Li.whole or Li.has_break or Li.cont != FALSE:
-        return "inner collecting loop does not cover every transition (`%s`)" % show(Li.source)
-    fo = classify(Li).get(v)
-    if fo is None or fo.kind != "COLLECT":
-        return None
-    if Li.filter != TRUE:
-        return "targets are collected only if `%s`" % show(Li.filter)
-    if fo.term != simp(("idx", ("elem", Li.id), C(1))):
-        return "collects `%s`, not the successor index" % show(fo.term)
+    acc = ("acc", Lo.id, v)
     init = Lo.init.get(v)
-    if init != ("list", (C(0),)):
+    if init not in (("list", (C(0),)), ("set", (C(0),))):
         return "the set starts as `%s`, not [0]: the initial state is not protected" % show(init)
-    return True
+    own = ("attr", ("elem", Lo.id), "next_states")
+    if up[0] == "res":
+        Li = sx.loops[up[1]]
+        if Li.source != own or not Li.whole or Li.has_break or Li.cont != FALSE:
+            return "inner collecting loop does not cover every transition (`%s`)" % show(Li.source)
+        fo = classify(Li).get(v)
+        if fo is None or fo.kind != "COLLECT":
+            return None
+        if Li.filter != TRUE:
+            return "targets are collected only if `%s`" % show(Li.filter)
+        if fo.term != simp(("idx", ("elem", Li.id), C(1))):
+            return "collects `%s`, not the successor index" % show(fo.term)
+        return True
+    if up[0] == "cat" and up[1] == acc and up[2][0] == "compr":
+        Lc = sx.loops[up[2][1]]
+        if Lc.source != own or not Lc.whole:
+            return "per-state update draws from `%s`, not from every transition of the state" % show(Lc.source)
+        if Lc.filters:
+            return "targets are collected only if `%s`" % show(Lc.filters[0])
+        if Lc.elt != simp(("idx", ("elem", Lc.id), C(1))):
+            return "collects `%s`, not the successor index" % show(Lc.elt)
+        return True
+    return None
 
 
 def r5_dispatch(ctx, chk, rule="C03.5"):
